@@ -112,7 +112,7 @@ func (fr *fmtRun) report(prop string, verdicts map[int]fmtVerdict) {
 			k := akey{it.law, mode}
 			sigs, ok := attr[k]
 			if !ok {
-				sigs, notes[k] = fmtAttribute(&it.rec, prop, mode, law)
+				sigs, notes[k] = fmtAttribute(&it.rec, prop, mode, law, it.cs.Exh)
 				attr[k] = sigs
 			}
 			for _, sig := range sigs {
